@@ -57,6 +57,18 @@ static int c11_g11d(toks_t *t)
     tj3Set(hd, TJPARAM_BOTTOMUP, bu); tj3Set(hd, TJPARAM_FASTUPSAMPLE, fl & 1); tj3Set(hd, TJPARAM_FASTDCT, (fl >> 1) & 1);
     if (tj3DecompressHeader(hd, jp, jn) < 0) { printf("R err header\n"); tj3Destroy(hd); free(jp); c11_free(&g[0]); return 1; }
     tj3SetScalingFactor(hd, f);
+    if ((fl & 4) && crop && prec == 8) {
+      /* call history: the region is set while a scaling factor of 1/2 is in effect (left edge on an iMCU boundary of THAT scale), then the
+         scaling factor is changed; whatever the library makes of it, only the documented extent of the region may be written */
+      static const int mcuw2[7] = { 8, 16, 16, 8, 8, 32, 8 }; tjscalingfactor half = { 1, 2 }; int hw = TJSCALED(j.w, half), hh = TJSCALED(j.h, half), mw2 = TJSCALED(mcuw2[j.ss % 7], half);
+      tjregion r2 = { mw2, 0, 0, 0 };
+      if (mw2 < hw) {
+        r2.w = 1 + (crop * 7) % (hw - mw2); r2.h = 1 + (crop * 5) % hh;
+        tj3SetScalingFactor(hd, half);
+        if (tj3SetCroppingRegion(hd, r2) == 0) { ow = r2.w; oh = r2.h; }
+        tj3SetScalingFactor(hd, f);
+      }
+    } else
     if (crop && prec == 8 && tj3SetCroppingRegion(hd, cr) == 0) { ow = cr.w ? cr.w : sw - cr.x; oh = cr.h ? cr.h : sh - cr.y; }
     rowb = (size_t)ow * ps * ssz; pitch = rowb + (size_t)pad * ssz; doc = pitch * (size_t)(oh - 1) + rowb;
     if (getenv("C11_DEBUG")) fprintf(stderr, "DBG sw%d sh%d crop %d,%d,%d,%d ow%d oh%d pf%d f%d/%d jn%lu\n", sw, sh, cr.x, cr.y, cr.w, cr.h, ow, oh, pf, f.num, f.denom, jn);
